@@ -174,8 +174,11 @@ fn bundled(name: &str) -> Option<(Beatmap, Vec<u8>, Vec<Vec<u8>>)> {
         m.borrow_mut()
             .entry(name.to_owned())
             .or_insert_with(|| {
-                let path = std::path::Path::new("/repo/resources").join(name.replace('+', " "));
-                let map: Beatmap = rosu_map::from_path(path).ok()?;
+                // `hex:<bytes>`: a map given inline (synthetic files covering constructs no bundled map has)
+                let map: Beatmap = match name.strip_prefix("hex:") {
+                    Some(h) => rosu_map::from_bytes(&unhex(h)).ok()?,
+                    None => rosu_map::from_path(std::path::Path::new("/repo/resources").join(name.replace('+', " "))).ok()?,
+                };
                 let mut rec = SchedWriter::new(Vec::new(), None);
                 map.clone().encode(&mut rec).ok()?;
                 Some((map, rec.written.clone(), rec.calls))
